@@ -146,6 +146,110 @@ theorem scan_torn_total_partial (good : List Stamped) (s : Stamped) (c : Nat)
   · rw [scan_torn_head good s c hg h]; exact ⟨rfl, Or.inl rfl⟩
   · rw [scan_torn_pad good s c hg hs h]; exact ⟨rfl, Or.inr rfl⟩
 
+/-- **scan_torn_exact**: what the scan does for EVERY cut behind the head (`c > 18`): the reader hands
+    `tornBody` (the bytes that reached the file, then zeros) to the rlp decoder; a decode error aborts
+    the scan (=> `Start` panics); a successful decode is delivered as a record — whatever it says. -/
+theorem scan_torn_exact (good : List Stamped) (s : Stamped) (c : Nat)
+    (hg : ∀ x ∈ good, WF x.r) (hs : WF s.r) (hc : 18 < c) :
+    scan (encodeAll good ++ (encodeRecord s.ts s.crc s.r).take c) =
+      match decodeBody (tornBody s.r c) with
+      | .eof => ⟨.eof, (encodeAll good).length, good.map (·.r)⟩
+      | .err e => ⟨.err e, (encodeAll good).length, good.map (·.r)⟩
+      | .ok k v => ⟨.eof, (encodeAll good).length + encLen s.r, good.map (·.r) ++ [⟨s.r.flg, k, v⟩]⟩ := by
+  have hl := encodeAll_length_ge good hg
+  have hb := encLen_bounds s.r hs
+  obtain ⟨hflg, hbl⟩ := hs
+  have htail : (encodeRecord s.ts s.crc s.r).take c =
+      encodeHead s.r.flg (bodyOf s.r).length s.ts s.crc ++
+        ((bodyOf s.r ++ zeros (encLen s.r - (18 + (bodyOf s.r).length))).take (c - 18)) := by
+    rw [encodeRecord_eq s.ts s.crc s.r ⟨hflg, hbl⟩, List.append_assoc, List.take_append,
+      List.take_of_length_le (by simp; omega)]
+    simp
+  have hlen : ((encodeRecord s.ts s.crc s.r).take c).length ≤ encLen s.r := by
+    rw [List.length_take, encodeRecord_length _ _ _ ⟨hflg, hbl⟩]; omega
+  have hlen1 : 1 ≤ ((encodeRecord s.ts s.crc s.r).take c).length := by
+    rw [List.length_take, encodeRecord_length _ _ _ ⟨hflg, hbl⟩]; omega
+  unfold scan
+  have := scanLoop_encodeAll good [] ((encodeRecord s.ts s.crc s.r).take c) []
+    ((encodeAll good ++ (encodeRecord s.ts s.crc s.r).take c).length + 1) hg
+    (by simp only [List.length_append]; omega)
+  simp only [List.nil_append, List.length_nil, Nat.zero_add] at this
+  rw [this]
+  have hf : (encodeAll good ++ (encodeRecord s.ts s.crc s.r).take c).length + 1 - good.length
+      = ((encodeAll good ++ (encodeRecord s.ts s.crc s.r).take c).length - good.length) + 1 := by
+    simp only [List.length_append]; omega
+  rw [hf]
+  have hstep : scanStep (encodeAll good ++ (encodeRecord s.ts s.crc s.r).take c) (encodeAll good).length =
+      match decodeBody (tornBody s.r c) with
+      | .eof => .eof
+      | .err e => .err e
+      | .ok k v => .deliver ⟨s.r.flg, k, v⟩ (encLen s.r) := by
+    rw [htail, scanStep_head _ _ _ _ _ _ hflg (by omega), readAt_torn s.r _ c hc]
+    have hu : GoSem.uadd 4294967296 18 (bodyOf s.r).length = 18 + (bodyOf s.r).length := by
+      unfold GoSem.uadd; omega
+    simp only [hu]
+    cases decodeBody (tornBody s.r c) <;> rfl
+  cases hd : decodeBody (tornBody s.r c) with
+  | eof =>
+    rw [hd] at hstep
+    simp [scanLoop, hstep]
+  | err e =>
+    rw [hd] at hstep
+    simp [scanLoop, hstep]
+  | ok k v =>
+    rw [hd] at hstep
+    simp only
+    rw [scanLoop_deliver _ _ _ _ _ _ hstep (by omega)]
+    rw [scanLoop_at_end _ _ _ _ (by simp only [List.length_append]; omega)]
+
+/-- **scan_torn_total_iff**: the EXACT guard of the full statement. For a record cut at byte `c`, the
+    scan "ends with EOF and returns the old records, possibly plus the record in flight" if and only if
+    the cut lies inside the head, or the zero-filled buffer happens to decode to the very record that
+    was being written (cut behind the body, or only zero bytes were lost). -/
+theorem scan_torn_total_iff (good : List Stamped) (s : Stamped) (c : Nat)
+    (hg : ∀ x ∈ good, WF x.r) (hs : WF s.r) :
+    ((scan (encodeAll good ++ (encodeRecord s.ts s.crc s.r).take c)).stop = .eof ∧
+      ((scan (encodeAll good ++ (encodeRecord s.ts s.crc s.r).take c)).recs = good.map (·.r) ∨
+       (scan (encodeAll good ++ (encodeRecord s.ts s.crc s.r).take c)).recs = good.map (·.r) ++ [s.r]))
+    ↔ (c ≤ 18 ∨ decodeBody (tornBody s.r c) = .ok s.r.key s.r.val) := by
+  by_cases hc : c ≤ 18
+  · simp only [hc, true_or, iff_true]
+    rw [scan_torn_head good s c hg hc]; exact ⟨rfl, Or.inl rfl⟩
+  · have hc' : 18 < c := by omega
+    simp only [hc, false_or]
+    rw [scan_torn_exact good s c hg hs hc']
+    cases hd : decodeBody (tornBody s.r c) with
+    | eof =>
+      exfalso
+      have := tornBody_ne_nil s.r c hc'
+      unfold decodeBody at hd
+      rw [if_neg this] at hd
+      revert hd
+      repeat' split
+      all_goals simp
+    | err e => simp
+    | ok k v =>
+      simp only [true_and, Dec.ok.injEq]
+      constructor
+      · intro h
+        rcases h with h | h
+        · have := congrArg List.length h
+          simp at this
+        · have := List.append_cancel_left h
+          simp only [List.cons.injEq, and_true] at this
+          have h2 : s.r.key = k ∧ s.r.val = v := by
+            have e := this
+            cases hr : s.r with
+            | mk f kk vv =>
+              rw [hr] at e
+              simp only [Record.mk.injEq] at e
+              exact ⟨e.2.1.symm, e.2.2.symm⟩
+          exact ⟨h2.1.symm, h2.2.symm⟩
+      · intro ⟨h1, h2⟩
+        right
+        subst h1; subst h2
+        rfl
+
 /-! ### refutation of the full statement on the faithful model -/
 
 /-- witness record: flag 4 (account), key 0x01, value AA BB CC; encoded = 18-byte head ++ C5 01 83 AA BB CC ++ zeros -/
@@ -244,6 +348,40 @@ theorem stable_after_crash_partial (d : Disk) (p : Promotion) (cp : CrashPoint)
     have : moved = true := hsafe
     subst this
     exact ⟨by simp [recover, crashState, completed, redeliver_prefix], by simp [recover, crashState, completed]⟩
+
+/-! ### byte level and record level together -/
+
+/-- **recoverBytes_torn_partial**: a crash during the append, cut inside a head or behind a body: start-up
+    succeeds and the store is exactly the record-level crash state `appending j` replayed — the
+    byte level refines the record level under the guard. -/
+theorem recoverBytes_torn_partial (kv : Store) (good : List Stamped) (s : Stamped) (c : Nat)
+    (hg : ∀ x ∈ good, WF x.r) (hs : WF s.r) (guard : c ≤ 18 ∨ 18 + (bodyOf s.r).length ≤ c) :
+    recoverBytes kv (encodeAll good ++ (encodeRecord s.ts s.crc s.r).take c)
+      = some (kv.replay (good.map (·.r) ++ (if c ≤ 18 then [] else [s.r]))) := by
+  unfold recoverBytes
+  rcases guard with h | h
+  · rw [scan_torn_head good s c hg h]; simp [h]
+  · have hb := bodyOf_ne_nil s.r
+    have : ¬ c ≤ 18 := by
+      intro h18
+      have : (bodyOf s.r).length = 0 := by omega
+      exact hb (List.eq_nil_of_length_eq_zero this)
+    rw [scan_torn_pad good s c hg hs h]; simp [this]
+
+/-- **refutation**: the store durably holds key 01 = AA BB CC; a rewrite of the same value is cut at
+    byte 22; after start-up the key reads AA 00 00 — the intact copy has been overwritten. -/
+theorem recoverBytes_torn_refuted_overwrite :
+    (recoverBytes (Store.empty.apply witness.r) ((encodeRecord witness.ts witness.crc witness.r).take 22)).map
+      (fun st => st (4, [1])) = some (some [0xAA, 0, 0]) := by
+  unfold recoverBytes
+  rw [scan_torn_total_refuted_phantom]
+  decide
+
+/-- **refutation**: cut at byte 19: start-up does not complete at all. -/
+theorem recoverBytes_torn_refuted_panic :
+    recoverBytes (Store.empty.apply witness.r) ((encodeRecord witness.ts witness.crc witness.r).take 19) = none := by
+  unfold recoverBytes
+  rw [scan_torn_total_refuted_error]
 
 /-- a two-record promotion: block 1 and one account whose balance changes from 10 to 20 -/
 def wDisk : Disk :=
